@@ -361,7 +361,26 @@ func TestC14Socket(t *testing.T) {
 		steps = append(steps, Step{Op: "pause", PauseUs: 5_400_000}, Step{Op: "write", Hex: frame(id, 0x0002, 2, nil)},
 			Step{Op: "wait_frames", N: 2 + stalled, DeadlineMs: 4000}, Step{Op: "write", Hex: frame(id, 0x0002, sentinelSerial, nil)},
 			Step{Op: "wait_frames", N: 3 + stalled, DeadlineMs: 4000}, Step{Op: "close", Mode: "fin"})
-		h := runScenario(Scenario{Actors: []Actor{{Name: "t", Kind: "terminal", Steps: steps}}})
+		// before that, twelve other terminals abandon a transfer (packet 1 of 3, then they hang up); and next to the main
+		// terminal four fresh ones only send heartbeats around the same 5.4 s of silence: nothing of the abandoned
+		// transfers may reach a later connection (no re-request for a transfer that connection never started)
+		const abandoners, bystanders = 12, 4
+		parties := abandoners + 1 + bystanders
+		steps = append([]Step{{Op: "barrier", Barrier: "abandoned", Parties: parties}}, steps...)
+		actors := []Actor{{Name: "t", Kind: "terminal", Steps: steps}}
+		for a := 0; a < abandoners; a++ {
+			aid := identity{Digits: fmt.Sprintf("1360000%04d", 5100+a), V2019: a%2 == 1}
+			actors = append(actors, Actor{Name: fmt.Sprintf("abandoner%d", a), Kind: "terminal", Steps: []Step{{Op: "dial"}, {Op: "write", Hex: frame(aid, 0x0002, 1, nil)},
+				{Op: "wait_frames", N: 1, DeadlineMs: 5000}, {Op: "write", Hex: fragFrame(aid, 0x0801, uint16(700+a), 3, 1, []byte{0xab, byte(a)})},
+				{Op: "pause", PauseUs: 20000}, {Op: "close", Mode: "fin"}, {Op: "pause", PauseUs: 30000}, {Op: "barrier", Barrier: "abandoned", Parties: parties}}})
+		}
+		for b := 0; b < bystanders; b++ {
+			bid := identity{Digits: fmt.Sprintf("1360000%04d", 5200+b), V2019: b%2 == 0}
+			actors = append(actors, Actor{Name: fmt.Sprintf("bystander%d", b), Kind: "terminal", Steps: []Step{{Op: "barrier", Barrier: "abandoned", Parties: parties}, {Op: "dial"},
+				{Op: "write", Hex: frame(bid, 0x0002, 1, nil)}, {Op: "wait_frames", N: 1, DeadlineMs: 5000}, {Op: "pause", PauseUs: 5_400_000},
+				{Op: "write", Hex: frame(bid, 0x0002, 2, nil)}, {Op: "wait_frames", N: 2, DeadlineMs: 4000}, {Op: "pause", PauseUs: 300000}, {Op: "close", Mode: "fin"}}})
+		}
+		h := runScenario(Scenario{Actors: actors})
 		res := kit.Result{NT: true, Labels: []string{"socket_many_stalled_transfers"}}
 		if !childVerdict(h, &res) {
 			return "C14 socket scenario", res.Err
@@ -402,6 +421,19 @@ func TestC14Socket(t *testing.T) {
 		}
 		if len(got) != stalled {
 			return map[string]any{"frames": idsSeen}, kit.Fail("%d re-requests for %d stalled transfers", len(got), stalled)
+		}
+		for b := 0; b < bystanders; b++ {
+			bf, _, bad := serverFrames(h, fmt.Sprintf("bystander%d", b))
+			if bad != "" {
+				return "C14 socket scenario", kit.Fail("%s", bad)
+			}
+			var seen []string
+			for _, f := range bf {
+				seen = append(seen, fmt.Sprintf("%04x", f.ID))
+			}
+			if fmt.Sprint(seen) != "[8001 8001]" {
+				return map[string]any{"bystander": b, "frames": seen}, kit.Fail("a terminal that only sent two heartbeats (5.4 s apart, after other connections had abandoned transfers) received %v, want two general responses", seen)
+			}
 		}
 		col.RecordHash(1, res, func() any { return map[string]any{"stalled_transfers": stalled, "frames": idsSeen} })
 		col.RecordHash(2, kit.Result{NT: true, Labels: []string{"socket_many_stalled_transfers"}}, nil)
